@@ -27,6 +27,7 @@ oracle : properties of the real code alone
 """
 import argparse
 import collections
+import decimal
 import json
 import random
 import subprocess
@@ -203,6 +204,7 @@ VOCAB = (
 class Gen:
     def __init__(self, rng):
         self.r = rng
+        self.n_gates = 0  # gate statements generated since the last program() call
 
     def ident(self):
         r = self.r
@@ -247,6 +249,7 @@ class Gen:
 
     def gate(self):
         r = self.r
+        self.n_gates += 1
         toks = [self.ident()]
         for _ in range(r.choice([0, 0, 1, 1, 2, 3, 5])):
             k = r.random()
@@ -347,11 +350,16 @@ class Gen:
         return out + ["}"]
 
     def program(self, valid=True):
+        """Token list of a program. Sets `self.n_gates` (number of gate statements) and `self.stmt_start`
+        (for every token index, the index of the first token of its top-level statement; separators
+        between statements count for themselves)."""
         r = self.r
+        self.n_gates = 0
         out = ["SEQPAD"]
+        start = [0]
         stmts = [self.header() for _ in range(r.choice([0, 1, 2, 3]))] + [self.body() for _ in range(r.choice([0, 1, 2, 3, 5]))]
         if not valid:
-            # occasionally break the side conditions: header after body, register size <= 0, import
+            # break a side condition: header after body, register size <= 0, import
             k = r.random()
             if k < 0.4 and stmts:
                 r.shuffle(stmts)
@@ -361,10 +369,14 @@ class Gen:
                 stmts.insert(r.randrange(0, len(stmts) + 1), ["import", self.ident(), "as", self.ident()])
         for i, s in enumerate(stmts):
             if i:
+                start.append(len(out))
                 out.append("SEQ")
+            start += [len(out)] * len(s)
             out += s
         if stmts and r.random() < 0.5:
+            start.append(len(out))
             out.append("SEQ")
+        self.stmt_start = start
         return out
 
     # ---- layout
@@ -408,31 +420,48 @@ class Gen:
             s += pre + c
         return s + r.choice(["", "", " ", "  "])
 
-    def render(self, toks):
+    MARKERS = ("SEQ", "PAR", "SEQPAD", "PARPAD")
+
+    def render_pos(self, toks):
+        """Text of a token list under a random layout, and the start offset of every token's rendering
+        (for a separator marker: where its run of separators and layout begins)."""
         out = []
+        offs = []
+        n = 0
         prev = None
         for t in toks:
+            piece = ""
             if t == "SEQ":
-                out.append(self.sep(";\n", True))
+                piece = self.sep(";\n", True)
             elif t == "PAR":
-                out.append(self.sep("|\n", True))
+                piece = self.sep("|\n", True)
             elif t == "SEQPAD":
-                out.append(self.sep(";\n", False))
+                piece = self.sep(";\n", False)
             elif t == "PARPAD":
-                out.append(self.sep("|\n", False))
+                piece = self.sep("|\n", False)
             else:
-                if prev is not None and prev not in ("SEQ", "PAR", "SEQPAD", "PARPAD"):
+                if prev is not None and prev not in self.MARKERS:
                     need = (prev[-1].isalnum() or prev[-1] in "_.'") and (t[0].isalnum() or t[0] in "_.+-'")
-                    out.append(self.gap(need))
-                out.append(t)
+                    g = self.gap(need)
+                    out.append(g)
+                    n += len(g)
+                piece = t
+            offs.append(n)
+            out.append(piece)
+            n += len(piece)
             prev = t
-        return "".join(out)
+        return "".join(out), offs
+
+    def render(self, toks):
+        return self.render_pos(toks)[0]
 
     def mutate_tokens(self, toks):
+        """One token deleted / duplicated / swapped / replaced / inserted. Returns the new list and the
+        smallest index at which it differs from `toks`."""
         r = self.r
         toks = list(toks)
         if not toks:
-            return [r.choice(VOCAB)]
+            return [r.choice(VOCAB)], 0
         i = r.randrange(len(toks))
         k = r.random()
         if k < 0.25:
@@ -442,18 +471,12 @@ class Gen:
         elif k < 0.6 and len(toks) > 1:
             j = r.randrange(len(toks))
             toks[i], toks[j] = toks[j], toks[i]
+            i = min(i, j)
         elif k < 0.85:
             toks[i] = r.choice(VOCAB)
         else:
             toks.insert(i, r.choice(VOCAB))
-        return toks
-
-    def render_loose(self, toks):
-        """Render a (possibly ill-formed) token list; structural markers become concrete separators."""
-        conc = []
-        for t in toks:
-            conc.append(t)
-        return self.render(conc)
+        return toks, i
 
     ALPHABET = "abgqxRlet mpo01239._+-eE'<>|{};[],*:\n\n \t/*/ $(\r#\"\\"
 
@@ -511,74 +534,222 @@ EDGE = [
     "g " + "1" * 400, "g " + "1" * 400 + ".5", "g " + "1" * 4300, "g " + "1" * 4301, "let a -" + "9" * 5000, "g 1." + "1" * 5000, "g 0." + "0" * 400 + "1", "'" + "1" * 300 + "'",
 ]
 
-STATS = collections.Counter()
+STATS = collections.Counter()  # auxiliary counters (e.g. float comparisons that needed rounding)
+
+
+# --------------------------------------------------------------------------------------------- oracles
+
+
+def count_gates(sx):
+    """Number of `["gate", …]` nodes in a rendered S-expression."""
+    if isinstance(sx, list):
+        n = 1 if (sx and sx[0] == "gate") else 0
+        return n + sum(count_gates(a) for a in sx[1:] if isinstance(a, list))
+    return 0
+
+
+def line_col(text, off):
+    return (1 + text.count("\n", 0, off), off - text.rfind("\n", 0, off))
+
+
+def real_token_starts(text):
+    """(line, column) of every token the real lexer produces, plus the position of its error if it fails."""
+    out = set()
+    try:
+        for t in JaqalLexer().tokenize(text):
+            out.add((t.lineno, t.index - text.rfind("\n", 0, t.index)))
+    except JaqalParseError as e:
+        out.add((e.line, e.column))
+    except BaseException:  # reported by only_JaqalParseError
+        pass
+    return out
+
+
+def oracle_relayout(text1, text2, n_gates):
+    """-> (relayout_ok, detail, nodrop_ok, detail)"""
+    r1, r2 = real_parse(text1), real_parse(text2)
+    if r1[0] != "ok" or r2[0] != "ok":
+        return False, f"not accepted: {r1[0]} {show(r1[1]) if r1[0]=='err' else r1[1] if r1[0]=='crash' else ''} / {r2[0]}", None, ""
+    same_tree = json.dumps(show(r1[1])) == json.dumps(show(r2[1]))
+    g = count_gates(show(r1[1]))
+    return same_tree, "" if same_tree else "different S-expressions", g == n_gates, f"{g} gate statements in the tree, {n_gates} generated"
+
+
+def oracle_reject_position(text, lb_off):
+    """-> (checked, ok, detail).  Only rejected texts are checked."""
+    r = real_parse(text)
+    if r[0] != "err":
+        return False, True, ""
+    line, col = r[1]
+    if line is None:
+        return True, col == 0, "EOF error with column != 0" if col != 0 else ""
+    starts = real_token_starts(text)
+    if (line, col) not in starts:
+        return True, False, f"({line},{col}) is not a token start"
+    if lb_off is not None and (line, col) < line_col(text, lb_off):
+        return True, False, f"({line},{col}) is before the mutated statement at {line_col(text, lb_off)}"
+    return True, True, ""
+
+
+# ------------------------------------------------------------------------------------------------- run
+
+
+def classify(rp):
+    if rp[0] == "ok":
+        return "accepted"
+    if rp[0] == "crash":
+        return "other_exception"
+    return "rejected_at_EOF" if rp[1][0] is None else "rejected_at_token"
+
+
+def run(seed: int, n: int, driver: str = DEFAULT_DRIVER, thorough: bool = False) -> dict:
+    if thorough:
+        n *= 5
+    STATS.clear()
+    rng = random.Random(seed)
+    gen = Gen(rng)
+    cases = []  # (stream, text)
+    orc = {k: {"cases": 0, "failures": []} for k in
+           ("relayout_same_sexpr", "no_statement_dropped", "reject_position", "only_JaqalParseError")}
+    dist = collections.Counter()
+
+    def fail(name, case, detail):
+        if len(orc[name]["failures"]) < 20:
+            orc[name]["failures"].append({"case": case, "detail": detail})
+        dist["oracle_failures_" + name] += 1
+
+    for t in EDGE:
+        cases.append(("edge", t))
+    for _ in range(n):
+        valid = rng.random() < 0.8
+        toks = gen.program(valid=valid)
+        n_gates, stmt_start = gen.n_gates, gen.stmt_start
+        text = gen.render(toks)
+        cases.append(("grammar", text))
+        dist["program_tokens_%s" % ("<10" if len(toks) < 10 else "<40" if len(toks) < 40 else ">=40")] += 1
+        if valid:
+            text2 = gen.render(toks)
+            orc["relayout_same_sexpr"]["cases"] += 1
+            orc["no_statement_dropped"]["cases"] += 1
+            ok1, d1, ok2, d2 = oracle_relayout(text, text2, n_gates)
+            if not ok1:
+                fail("relayout_same_sexpr", {"oracle": "relayout_same_sexpr", "text": text, "text2": text2, "gates": n_gates}, d1)
+            if ok2 is False:
+                fail("no_statement_dropped", {"oracle": "no_statement_dropped", "text": text, "text2": text2, "gates": n_gates}, d2)
+        mtoks, i = gen.mutate_tokens(toks)
+        mtext, offs = gen.render_pos(mtoks)
+        cases.append(("tokmut", mtext))
+        if valid:
+            lb = stmt_start[i] if i < len(stmt_start) else len(mtoks)
+            lb_off = offs[lb] if lb < len(offs) else len(mtext)
+            checked, ok, d = oracle_reject_position(mtext, lb_off)
+            if checked:
+                orc["reject_position"]["cases"] += 1
+                if not ok:
+                    fail("reject_position", {"oracle": "reject_position", "text": mtext, "lb_off": lb_off}, d)
+        cases.append(("charmut", gen.mutate_chars(gen.render(toks))))
+        cases.append(("noise", gen.noise()))
+
+    texts = [t for _, t in cases]
+    model_parse = [model_parse_norm(m) for m in drive(driver, "parse", texts)]
+    model_lex = [model_lex_norm(m) for m in drive(driver, "lex", texts)]
+    corr = {"parse": {"cases": 0, "disagreements": []}, "lex": {"cases": 0, "disagreements": []}}
+    for (stream, text), mp, ml in zip(cases, model_parse, model_lex):
+        rp = real_parse(text)
+        rl = real_lex(text)
+        dist[stream + "_" + classify(rp)] += 1
+        dist["parse_" + classify(rp)] += 1
+        dist["lex_" + ("ok" if rl[0] == "ok" else "error" if rl[0] == "err" else "other_exception")] += 1
+        orc["only_JaqalParseError"]["cases"] += 1
+        for which, r in (("parse", rp), ("lex", rl)):
+            if r[0] == "crash":
+                fail("only_JaqalParseError", {"oracle": "only_JaqalParseError", "op": which, "text": text}, r[1])
+        if stream not in ("grammar",):
+            # every rejection, on every stream, must be at EOF or at a token start
+            checked, ok, d = oracle_reject_position(text, None)
+            if checked and stream != "tokmut":
+                orc["reject_position"]["cases"] += 1
+            if checked and not ok:
+                fail("reject_position", {"oracle": "reject_position", "text": text, "lb_off": None}, d)
+        if rp[0] != "crash":
+            corr["parse"]["cases"] += 1
+            if rp[0] != mp[0] or not (same(rp[1], mp[1]) if rp[0] == "ok" else rp[1] == mp[1]):
+                if len(corr["parse"]["disagreements"]) < 20:
+                    corr["parse"]["disagreements"].append({"case": {"op": "parse", "text": text, "stream": stream},
+                                                           "model": list(mp), "impl": [rp[0], show(rp[1])]})
+                dist["disagreements_parse"] += 1
+        if rl[0] != "crash":
+            corr["lex"]["cases"] += 1
+            if rl[0] != ml[0] or not (same(rl[1], ml[1]) if rl[0] == "ok" else rl[1] == ml[1]):
+                if len(corr["lex"]["disagreements"]) < 20:
+                    corr["lex"]["disagreements"].append({"case": {"op": "lex", "text": text, "stream": stream},
+                                                         "model": list(ml), "impl": [rl[0], show(rl[1])]})
+                dist["disagreements_lex"] += 1
+    dist["rounded_float_matches"] = STATS["rounded_float_matches"]
+    nontrivial = len({t for t in texts if len(t.split()) >= 3})
+    samples = [{"stream": st, "text": t} for st, t in cases[len(EDGE):len(EDGE) + 8]]
+    return {"corr": corr, "oracle": orc, "distribution": dict(dist), "samples": samples, "nontrivial": nontrivial}
+
+
+def replay(case: dict, driver: str = DEFAULT_DRIVER) -> dict:
+    """Re-run one case of a `disagreements` / `failures` entry."""
+    text = case["text"]
+    if "oracle" in case:
+        name = case["oracle"]
+        impl = real_parse(text)
+        impl = [impl[0], show(impl[1]) if impl[0] == "ok" else impl[1]]
+        model = list(model_parse_norm(drive(driver, "parse", [text])[0]))
+        if name in ("relayout_same_sexpr", "no_statement_dropped"):
+            ok1, d1, ok2, d2 = oracle_relayout(text, case["text2"], case["gates"])
+            ok, d = (ok1, d1) if name == "relayout_same_sexpr" else (bool(ok2), d2)
+        elif name == "reject_position":
+            _, ok, d = oracle_reject_position(text, case.get("lb_off"))
+        else:
+            r = real_lex(text) if case.get("op") == "lex" else real_parse(text)
+            ok, d = r[0] != "crash", r[1] if r[0] == "crash" else ""
+        return {"model": model, "impl": impl, "oracle_ok": bool(ok), "detail": d}
+    op = case.get("op", "parse")
+    if op == "lex":
+        r = real_lex(text)
+        m = model_lex_norm(drive(driver, "lex", [text])[0])
+    else:
+        r = real_parse(text)
+        m = model_parse_norm(drive(driver, "parse", [text])[0])
+    if r[0] == "crash":
+        return {"model": list(m), "impl": list(r), "oracle_ok": False, "detail": "real code raised " + r[1]}
+    agree = r[0] == m[0] and (same(r[1], m[1]) if r[0] == "ok" else r[1] == m[1])
+    return {"model": list(m), "impl": [r[0], show(r[1])], "oracle_ok": None,
+            "detail": "model and implementation agree" if agree else "model and implementation DISAGREE"}
 
 
 def main():
     ap = argparse.ArgumentParser()
-    ap.add_argument("--driver", default="/verif/lean/.lake/build/bin/jaqal-model")
-    ap.add_argument("--n", type=int, default=4000, help="cases per stream")
+    ap.add_argument("--driver", default=DEFAULT_DRIVER)
+    ap.add_argument("--n", type=int, default=1000, help="number of generated programs (4 texts each)")
     ap.add_argument("--seed", type=int, default=20260923)
-    ap.add_argument("--verbose", action="store_true")
-    ap.add_argument("--max-report", type=int, default=25)
+    ap.add_argument("--thorough", action="store_true")
+    ap.add_argument("--json", action="store_true", help="print the full result as JSON")
     args = ap.parse_args()
-
-    rng = random.Random(args.seed)
-    gen = Gen(rng)
-    drv = Driver(args.driver)
-    mismatches = []
-    findings = []
-
-    def check(stream, text):
-        STATS["cases"] += 1
-        STATS["cases_" + stream] += 1
-        rp = real_parse(text)
-        mp = model_parse_norm(drv.call("parse", text=text))
-        if rp[0] == "crash":
-            findings.append((stream, "parse", text, rp[1]))
-            STATS["findings"] += 1
-        else:
-            STATS["parse_" + rp[0]] += 1
-            STATS["parse_" + rp[0] + "_" + stream] += 1
-            if rp[0] != mp[0] or not (same(rp[1], mp[1]) if rp[0] == "ok" else rp[1] == mp[1]):
-                mismatches.append((stream, "parse", text, (rp[0], show(rp[1])), mp))
-        rl = real_lex(text)
-        ml = model_lex_norm(drv.call("lex", text=text))
-        if rl[0] == "crash":
-            findings.append((stream, "lex", text, rl[1]))
-            STATS["findings"] += 1
-        else:
-            STATS["lex_" + rl[0]] += 1
-            if rl[0] != ml[0] or not (same(rl[1], ml[1]) if rl[0] == "ok" else rl[1] == ml[1]):
-                mismatches.append((stream, "lex", text, (rl[0], show(rl[1])), ml))
-
-    for t in EDGE:
-        check("edge", t)
-    for i in range(args.n):
-        toks = gen.program(valid=rng.random() < 0.8)
-        check("grammar", gen.render(toks))
-        check("tokmut", gen.render(gen.mutate_tokens(toks)))
-        text = gen.render(toks)
-        check("charmut", gen.mutate_chars(text))
-        check("noise", gen.noise())
-    drv.close()
-
-    print("== parse_diff ==")
-    for k in sorted(STATS):
-        print(f"  {k:32s} {STATS[k]}")
-    print(f"  mismatches                       {len(mismatches)}")
-    for m in mismatches[: args.max_report]:
-        print("MISMATCH", m[0], m[1], "text=", repr(m[2]))
-        print("   real :", json.dumps(m[3])[:600])
-        print("   model:", json.dumps(m[4])[:600])
-    seen = set()
-    for f in findings:
-        key = (f[1], f[3].split(":")[0])
-        if key in seen and not args.verbose:
-            continue
-        seen.add(key)
-        print("FINDING (exception other than JaqalParseError)", f[0], f[1], "text=", repr(f[2])[:300], "->", f[3])
-    sys.exit(1 if mismatches else 0)
+    res = run(args.seed, args.n, args.driver, args.thorough)
+    if args.json:
+        print(json.dumps(res))
+    else:
+        print("== parse_diff ==")
+        for op, c in res["corr"].items():
+            print(f"  corr {op:24s} cases {c['cases']:7d}  disagreements {len(c['disagreements'])}")
+            for d in c["disagreements"][:10]:
+                print("    DISAGREE text=", repr(d["case"]["text"])[:300])
+                print("      impl :", json.dumps(d["impl"])[:400])
+                print("      model:", json.dumps(d["model"])[:400])
+        for name, o in res["oracle"].items():
+            print(f"  oracle {name:22s} cases {o['cases']:7d}  failures {len(o['failures'])}")
+            for f in o["failures"][:10]:
+                print("    FAIL", f["detail"][:200], " text=", repr(f["case"]["text"])[:200])
+        print("  nontrivial distinct texts:", res["nontrivial"])
+        for k in sorted(res["distribution"]):
+            print(f"    {k:36s} {res['distribution'][k]}")
+    bad = any(c["disagreements"] for c in res["corr"].values())
+    sys.exit(1 if bad else 0)
 
 
 if __name__ == "__main__":
